@@ -51,7 +51,10 @@ def ensure_static_build(targets=None, keep_going=False):
             if rc:
                 raise RuntimeError("coq_makefile failed:\n" + out)
         tg = " ".join(f"theories/{t}.vo" for t in targets) if targets else ""
-        rc, out = sh(f"timeout 3000 make {'-k ' if keep_going else ''}-j16 {tg}", cwd=COQ, timeout=3100)
+        # every single file is compiled under its own time limit so that a diverging proof in one
+        # theory can neither hang a check nor hold the build lock
+        per_file = int(os.environ.get("VERIF_COQC_TIMEOUT", "900"))
+        rc, out = sh(f"timeout 3000 make {'-k ' if keep_going else ''}-j16 COQC='timeout {per_file} coqc' {tg}", cwd=COQ, timeout=3100)
         if rc and not keep_going:
             raise RuntimeError("static Coq build failed:\n" + out[-4000:])
         return rc, out
@@ -274,3 +277,49 @@ def static_assumptions(theory, timeout=600):
         for n, c in zip(names, chunks):
             res[n] = " ".join(c.split())
     return ok, res
+
+
+def strip_coq_comments(txt):
+    out, depth, i = [], 0, 0
+    while i < len(txt):
+        if txt.startswith("(*", i):
+            depth += 1
+            i += 2
+        elif txt.startswith("*)", i) and depth:
+            depth -= 1
+            i += 2
+        else:
+            if depth == 0:
+                out.append(txt[i])
+            elif txt[i] == "\n":
+                out.append("\n")
+            i += 1
+    return "".join(out)
+
+
+FORBIDDEN = re.compile(r"\b(Admitted|admit|Axiom|Axioms|Parameter|Parameters|Conjecture|Admit\s+Obligations)\b"
+                       r"|Unset\s+Guard|bypass_check|type-in-type|impredicative-set|Unset\s+Universe|Unset\s+Positivity")
+
+
+def scan_forbidden():
+    """[(file, line, text)] of forbidden constructs in coq/theories (comments and strings ignored);
+    Variable/Hypothesis outside a Section are also reported."""
+    hits = []
+    for root, _, fs in os.walk(THEORIES):
+        for f in fs:
+            if not f.endswith(".v"):
+                continue
+            p = os.path.join(root, f)
+            txt = strip_coq_comments(open(p).read())
+            depth = 0
+            for ln, line in enumerate(txt.split("\n"), 1):
+                if re.match(r"\s*(Section|Module)\s+\w+", line) and ":=" not in line:
+                    depth += 1
+                elif re.match(r"\s*End\s+\w+\s*\.", line):
+                    depth = max(0, depth - 1)
+                m = FORBIDDEN.search(line)
+                if m:
+                    hits.append((os.path.relpath(p, VERIF), ln, line.strip()[:120]))
+                if depth == 0 and re.match(r"\s*(Variable|Variables|Hypothesis|Hypotheses|Context)\b", line):
+                    hits.append((os.path.relpath(p, VERIF), ln, "outside a Section: " + line.strip()[:100]))
+    return hits
